@@ -251,7 +251,6 @@ fn pore(sys: &Sys, rec: &mut Rec) {
 /// Anderson chain (the default solver does not converge for these)
 fn spec(sys: &Sys, rec: &mut Rec) {
     let eos = &sys.eos;
-    use feos_dft::HelmholtzEnergyFunctional;
     let nc = eos.components();
     let x = if nc == 1 { arr1(&[1.0]) } else { arr1(&[0.6, 0.4]) };
     let Ok(cp) = State::critical_point(eos, Some(&(x.clone() * MOL)), None, Default::default()) else { return };
